@@ -118,9 +118,37 @@ func transferRuns(in transferInput, n int, id int) ([][]string, [][]bool) {
 	return runs, oks
 }
 
+// noise runs an unrelated history through the same process-wide executors, managers and pool on
+// its own state, in a loop, on another goroutine - as the node's game executor pre-executes
+// client transactions while blocks are being executed. Block execution must not depend on it.
+func noise(stop chan struct{}, done chan struct{}, ops []ledgerops.AbsOp) {
+	defer close(done)
+	for k := 0; ; k++ {
+		w := ledgerops.NewWorld(900000 + k)
+		for _, o := range ops {
+			select {
+			case <-stop:
+				return
+			default:
+			}
+			w.Step(nil, o, ledgerops.Amounts[(o.V+1)%3], "")
+		}
+	}
+}
+
 func mixedRuns(ops []ledgerops.AbsOp, n int, id int) [][]string {
 	runs := [][]string{}
 	for r := 0; r < n; r++ {
+		// every second run executes with a concurrent foreign user of the executors
+		var stop, done chan struct{}
+		if r%2 == 1 {
+			stop, done = make(chan struct{}), make(chan struct{})
+			rev := make([]ledgerops.AbsOp, 0, len(ops))
+			for i := len(ops) - 1; i >= 0; i-- {
+				rev = append(rev, ops[i])
+			}
+			go noise(stop, done, rev)
+		}
 		w := ledgerops.NewWorld(id)
 		warm(w.St, r, nil)
 		ds := []string{}
@@ -131,6 +159,10 @@ func mixedRuns(ops []ledgerops.AbsOp, n int, id int) [][]string {
 		d, _ := digest(w.Step(nil, ledgerops.AbsOp{Op: "MatureRewards"}, "", ""))
 		ds = append(ds, d)
 		runs = append(runs, ds)
+		if stop != nil {
+			close(stop)
+			<-done
+		}
 	}
 	return runs
 }
